@@ -201,6 +201,52 @@ func VxC16Apply() {
 	vx.Assert("database-flushed", !vx.FSFileDirty(db))
 }
 
+// VxC16ApplyFar: the real applyLTXFile on a follower whose database lies across
+// the 4 GiB offset (a sparse file; 512-byte pages): a page on either side of the
+// boundary lands at (pgno-1)*pageSize, the pages at the start of the file keep
+// their bytes, and the file is cut to the commit size.
+func VxC16ApplyFar() {
+	dir := vx.TempDir()
+	db := dir + "/follow.db"
+	boundary := uint32((int64(1) << 32) / vxPageSize) // pages below the 4 GiB offset
+	pgno := boundary + uint32(vx.Choose("pageAt4GiB", 0, 2))
+	commit := pgno + uint32(vx.Choose("pagesAfter", 0, 1))
+	before := int64(boundary+uint32(vx.Choose("sizeBefore", 0, 3))) * vxPageSize
+	vx.FSSparseFile(db, before)
+	for pg := 1; pg <= 3; pg++ {
+		vx.FSSparsePatch(db, int64(pg-1)*vxPageSize+100, []byte{0xE0 + byte(pg)})
+	}
+	c := &vxStoreClient{}
+	tag := vx.U64("tag")
+	c.put(&vxLTX{level: 0, min: 5, max: 5, commit: commit, ts: 1000, pages: []vxPg{{pgno: pgno, tag: tag}}})
+	r := NewReplicaWithClient(nil, c)
+	fh, err := os.OpenFile(db, os.O_RDWR, 0)
+	if err != nil {
+		panic(err)
+	}
+	defer fh.Close()
+	vxApplyRecord = false
+	err = r.applyLTXFileReal(context.Background(), fh, c.files[0], vxPageSize)
+	vx.Assert("apply-succeeds", err == nil)
+	if err != nil {
+		return
+	}
+	fi, serr := fh.Stat()
+	vx.Assert("size-is-commit", serr == nil && fi.Size() == int64(commit)*vxPageSize)
+	var b [8]byte
+	_, rerr := fh.ReadAt(b[:], int64(pgno-1)*vxPageSize)
+	vx.Assert("page-image-at-its-offset", rerr == nil && vxTagOf(b[:]) == tag)
+	for pg := 1; pg <= 3; pg++ {
+		var m [1]byte
+		_, merr := fh.ReadAt(m[:], int64(pg-1)*vxPageSize+100)
+		vx.Assert("other-pages-untouched", merr == nil && m[0] == 0xE0+byte(pg))
+		var h [8]byte
+		_, herr := fh.ReadAt(h[:], int64(pg-1)*vxPageSize)
+		vx.Assert("other-pages-untouched", herr == nil && vxTagOf(h[:]) == 0)
+	}
+	vx.Assert("database-flushed", !vx.FSFileDirty(db))
+}
+
 // vxFollowClient cancels the follow loop after a number of polls and lets new
 // level-0 files appear between polls.
 type vxFollowClient struct {
@@ -250,6 +296,11 @@ func VxC16Follow() {
 	// the snapshot the follower was restored from (snapshots are rare: the follower
 	// is normally ahead of the newest one)
 	c.files = append(c.files, &ltx.FileInfo{Level: SnapshotLevel, MinTXID: 1, MaxTXID: start, Size: 4096})
+	// ... or behind it: the primary has taken another snapshot since, while every
+	// incremental file the follower still needs is in the replica
+	if vx.Fault("newerSnapshotExists") {
+		c.files = append(c.files, &ltx.FileInfo{Level: SnapshotLevel, MinTXID: 1, MaxTXID: start + n, Size: 4096})
+	}
 	r := NewReplicaWithClient(nil, c)
 
 	// ghost: the TXID the database content is at, and what the sidecar said when each apply happened
